@@ -624,31 +624,32 @@ Definition successors (ts : list trans) (a : N) : list N :=
             ts [].
 
 (** All simple paths starting in [cur] (already in [visited]); [str] = the labels so far, reversed.
-    A string is emitted for every accepting state reached. *)
+    A string is emitted for every accepting state reached.  (The order of the result is
+    irrelevant: it is turned into a sorted set.)  [sp_go] walks over the successors of [cur];
+    [rec] is the search one level deeper. *)
+Fixpoint sp_go (rec : N -> list N -> list N -> option (list (list N))) (ts : list trans)
+  (cur : N) (visited str : list N) (succs : list N) : option (list (list N)) :=
+  match succs with
+  | [] => Some []
+  | s :: rest =>
+      if memN s visited then sp_go rec ts cur visited str rest
+      else
+        match last_label ts cur s with
+        | None => None
+        | Some lab =>
+            match rec s (s :: visited) (lab :: str), sp_go rec ts cur visited str rest with
+            | Some sub, Some r =>
+                Some ((if state_accepting ts s then [rev (lab :: str)] else []) ++ sub ++ r)
+            | _, _ => None
+            end
+        end
+  end.
+
 Fixpoint simple_paths (fuel : nat) (ts : list trans) (cur : N) (visited : list N) (str : list N)
   : option (list (list N)) :=
   match fuel with
   | O => None
-  | S f =>
-      fold_left
-        (fun acc s =>
-           match acc with
-           | None => None
-           | Some l =>
-               if memN s visited then Some l
-               else
-                 match last_label ts cur s with
-                 | None => None
-                 | Some lab =>
-                     let str' := lab :: str in
-                     let here := if state_accepting ts s then [rev str'] else [] in
-                     match simple_paths f ts s (s :: visited) str' with
-                     | None => None
-                     | Some sub => Some (l ++ here ++ sub)
-                     end
-                 end
-           end)
-        (successors ts cur) (Some [])
+  | S f => sp_go (simple_paths f ts) ts cur visited str (successors ts cur)
   end.
 
 (** [Vec<u16>] order of the [BTreeSet]. *)
